@@ -349,6 +349,42 @@ package fsutil
 //@   ensures atmost: cnt(ChanSend) <= old(cnt(ChanSend)) + 1
 //@   ensures end: p == nil ==> cnt(ChanSend) == old(cnt(ChanSend))
 
+// the other end of the walker: entries are handed on until the channel is closed; a
+// cancellation is recorded in w.err before the walker is marked closed, so update() never
+// wraps a nil error after closeCh fired
+//@ func dynamicWalker.fill
+//@   property C07
+//@   requires w != nil
+//@   modifies w.err
+//@   effects ChanSend
+//@   loop 0 invariant untouched: w.err == old(w.err)
+//@   ensures recorded: result != nil ==> w.err != nil
+//@   ensures clean_end: result == nil ==> w.err == old(w.err)
+
+// the stat of a walked entry is computed at most once (so the inode map sees every entry once),
+// from the entry's own lstat result, and callers get a private copy
+//@ func DirEntryInfo.Info
+//@   property C09 C11
+//@   requires s != nil
+//@   requires built_from_an_os_entry: s.Stat == nil ==> specOSEntry(s.entry)
+//@   modifies s.Stat, s.seenFiles[*], array byte
+//@   effects Readlink LListxattr LGetxattr
+//@   ensures cached: result1 == nil ==> s.Stat != nil && (old(s.Stat) != nil ==> s.Stat == old(s.Stat) && cnt(Readlink) == old(cnt(Readlink)))
+//@   ensures private_copy: result1 == nil ==> isptr(result0, StatInfo) && asptr(result0, StatInfo) != nil && asptr(result0, StatInfo).Stat != nil && fresh(asptr(result0, StatInfo).Stat) && asptr(result0, StatInfo).Stat.Path == s.Stat.Path && asptr(result0, StatInfo).Stat.Mode == s.Stat.Mode && asptr(result0, StatInfo).Stat.Linkname == s.Stat.Linkname
+//@   at call mkstat: once_from_own_entry: s.Stat == nil && arg0 == s.origpath && arg1 == s.path && arg3 == s.seenFiles
+
+// opening goes to the real file below the root / to the wrapped view
+//@ func fs.Open
+//@   property C11 C06
+//@   requires fs != nil
+//@   effects Open
+//@   ensures below_root: cnt(Open) == old(cnt(Open)) + 1 && arg(Open, 0) == filepath.Join(fs.root, p)
+//@ func hardlinkFilter.Open
+//@   property C11
+//@   requires r != nil
+//@   effects FsOpen
+//@   ensures same_view: cnt(FsOpen) == old(cnt(FsOpen)) + 1 && arg(FsOpen, 0) == p
+
 // a path is requested at most once, by the id it was announced with, and the
 // pipe for the answer is registered before the request leaves
 //@ func receiver.asyncDataFunc
@@ -634,6 +670,10 @@ package fsutil
 //@   ensures atmost: cnt(WalkFn) <= old(cnt(WalkFn)) + 1
 //@   ensures relpath: cnt(WalkFn) > old(cnt(WalkFn)) ==> arg(WalkFn, 0) == filepath.Rel(fs.root, path) && arg(WalkFn, 0) != "." && arg(WalkFn, 2) == walkErr && (dirEntry == nil) == (arg(WalkFn, 1) == nil)
 //@   ensures forwarded: retErr == nil && !(filepath.Rel(fs.root, path) == ".") ==> cnt(WalkFn) == old(cnt(WalkFn)) + 1
+// what is forwarded wraps the entry WalkDir delivered (an os entry: assumed for the callback),
+// with no stat yet, the walk's shared inode map, and both forms of the path
+//@   requires walkdir_delivers_os_entries: dirEntry == nil || specOSEntry(dirEntry)
+//@   ensures lazy_entry: cnt(WalkFn) > old(cnt(WalkFn)) && dirEntry != nil ==> isptr(arg(WalkFn, 1), DirEntryInfo) && asptr(arg(WalkFn, 1), DirEntryInfo) != nil && fresh(asptr(arg(WalkFn, 1), DirEntryInfo)) && asptr(arg(WalkFn, 1), DirEntryInfo).entry == dirEntry && specOSEntry(asptr(arg(WalkFn, 1), DirEntryInfo).entry) && asptr(arg(WalkFn, 1), DirEntryInfo).Stat == nil && asptr(arg(WalkFn, 1), DirEntryInfo).seenFiles == seenFiles && asptr(arg(WalkFn, 1), DirEntryInfo).origpath == path && asptr(arg(WalkFn, 1), DirEntryInfo).path == filepath.Rel(fs.root, path)
 
 // composite filesystems: every stat and link name of a sub-walk is prefixed with
 // the sub-root's name (absolute symlink targets are re-rooted, relative ones kept)
@@ -695,6 +735,19 @@ package fsutil
 // decided by moby/patternmatcher (regexp) and is not decided here; see the
 // bounded stand-in for the equality with the reference filter.
 // ---------------------------------------------------------------------------
+
+// building the filtered view: no options -> the view itself; follow-paths are resolved
+// against the same underlying view; the result
+// wraps exactly that view and the caller's map function; matchers exist iff there are patterns
+//@ func NewFilterFS
+//@   property C10 C11 C18
+//@   modifies array string, array os.DirEntry, maps string struct{}
+//@   ensures no_options: opt == nil ==> result0 == fs && result1 == nil
+//@   ensures wraps: opt != nil && result1 == nil ==> isptr(result0, filterFS) && asptr(result0, filterFS) != nil && fresh(asptr(result0, filterFS)) && asptr(result0, filterFS).fs == fs && asptr(result0, filterFS).mapFn == opt.Map
+//@   ensures exclude_matcher: opt != nil && result1 == nil ==> (asptr(result0, filterFS).excludeMatcher != nil) == (len(opt.ExcludePatterns) > 0)
+//@   ensures no_include_matcher: opt != nil && result1 == nil && opt.IncludePatterns == nil && opt.FollowPaths == nil ==> asptr(result0, filterFS).includeMatcher == nil
+//@   at call FollowLinks: same_view: arg0 == fs && arg1 == opt.FollowPaths
+//@   at call patternmatcher.New#1: caller_excludes: arg0 == opt.ExcludePatterns
 
 //@ func patternWithoutTrailingGlob
 //@   property C10
@@ -773,27 +826,30 @@ package fsutil
 //@   safety -index
 //@   ensures path_order: result == specPathLess(res[i], res[j])
 
-// For an input that is strictly ascending in path order the result contains no
-// element inside another one; a root entry (".") collapses the list to "no filter".
-// The precondition is established by FollowLinks (sort.Slice with the verified
-// comparator above over distinct map keys - not proved at the call site, see the
-// bounded stand-in); NewFilterFS applies the function to an unsorted pattern list,
-// where it only removes directly adjacent nested entries.
+// For an input that is strictly ascending in path order the result is ascending and contains
+// no element inside another one; a root entry (".") collapses any list to "no filter"; for any
+// input the result is a subsequence-by-construction (elements of the input, no new strings).
+// FollowLinks establishes the ascending order (see below); NewFilterFS also applies the function
+// to an unsorted pattern list, where only the unconditional clauses apply.
+//@ pred specAscending(in []string) bool = forall i int, j int :: {in[i], in[j]} 0 <= i && i < j && j < len(in) ==> specPathLess(in[i], in[j])
 //@ func dedupePaths
-//@   property C18
+//@   property C18 C10
 //@   lemmas inside_less contiguity pathless_asym inside_hasprefix
 //@   opaque specPathLess specInside specHasPrefix
-//@   requires sorted: forall i int, j int :: 0 <= i && i < j && j < len(in) ==> specPathLess(in[i], in[j])
 //@   ensures root: (exists i int :: 0 <= i && i < len(in) && in[i] == ".") ==> result == nil
-//@   ensures prefix_free: forall a int, b int :: 0 <= a && a < len(result) && 0 <= b && b < len(result) && a != b ==> !specInside(result[b], result[a])
-//@   ensures ascending: forall a int, b int :: 0 <= a && a < b && b < len(result) ==> specPathLess(result[a], result[b])
+//@   ensures own: result == nil || fresh(result)
+//@   ensures from_input: forall a int :: 0 <= a && a < len(result) ==> exists i int :: 0 <= i && i < len(in) && result[a] == in[i]
+//@   ensures prefix_free: specAscending(in) ==> forall a int, b int :: 0 <= a && a < len(result) && 0 <= b && b < len(result) && a != b ==> !specInside(result[b], result[a])
+//@   ensures ascending: specAscending(in) ==> forall a int, b int :: 0 <= a && a < b && b < len(result) ==> specPathLess(result[a], result[b])
 //@   loop 0 invariant noroot: forall i int :: 0 <= i && i <= rangeindex ==> in[i] != "."
 //@   loop 0 invariant outfresh: fresh(out) && out != nil
 //@   loop 0 invariant room: cap(out) == len(in) && len(out) <= rangeindex + 1 && off(out) == 0
 //@   loop 0 invariant last: (len(out) == 0 ==> last == "") && (len(out) > 0 ==> last == out[len(out)-1])
-//@   loop 0 invariant below: forall a int, i int :: 0 <= a && a < len(out) && rangeindex < i && i < len(in) ==> specPathLess(out[a], in[i])
-//@   loop 0 invariant ordered: forall a int, b int :: 0 <= a && a < b && b < len(out) ==> specPathLess(out[a], out[b])
-//@   loop 0 invariant prefix_free{inside_less,contiguity,pathless_asym,inside_hasprefix}: forall a int, b int :: 0 <= a && a < len(out) && 0 <= b && b < len(out) && a != b ==> !specInside(out[b], out[a])
+//@   loop 0 invariant bound: rangeindex < len(in)
+//@   loop 0 invariant from_input: forall a int :: 0 <= a && a < len(out) ==> exists i int :: 0 <= i && i <= rangeindex && out[a] == in[i]
+//@   loop 0 invariant below: specAscending(in) ==> forall a int, i int :: 0 <= a && a < len(out) && rangeindex < i && i < len(in) ==> specPathLess(out[a], in[i])
+//@   loop 0 invariant ordered: specAscending(in) ==> forall a int, b int :: 0 <= a && a < b && b < len(out) ==> specPathLess(out[a], out[b])
+//@   loop 0 invariant prefix_free{inside_less,contiguity,pathless_asym,inside_hasprefix}: specAscending(in) ==> forall a int, b int :: 0 <= a && a < len(out) && 0 <= b && b < len(out) && a != b ==> !specInside(out[b], out[a])
 
 // FollowLinks: the keys of the resolver's set are distinct, sort.Slice orders them by the
 // verified comparator (a strict total order, so the result is strictly ascending), which is
